@@ -801,11 +801,17 @@ macro_rules! drive {
         }
         if failed {
             if $cfg.probe_after_error {
+                // every further use must panic: an empty write, a non-empty write, and end()
+                let r = catch_unwind(AssertUnwindSafe(|| $rw.write(b"")));
+                lock(&$sh).log.push(Rec::Probe { panicked: r.is_err() });
                 let r = catch_unwind(AssertUnwindSafe(|| $rw.write(b"<probe>")));
                 lock(&$sh).log.push(Rec::Probe { panicked: r.is_err() });
+                let r = catch_unwind(AssertUnwindSafe(move || $rw.end()));
+                lock(&$sh).log.push(Rec::Probe { panicked: r.is_err() });
+            } else {
+                // dropping a poisoned rewriter must be fine
+                let _ = catch_unwind(AssertUnwindSafe(move || drop($rw)));
             }
-            // dropping a poisoned rewriter must be fine
-            let _ = catch_unwind(AssertUnwindSafe(move || drop($rw)));
         } else if $cfg.skip_end {
             let _ = catch_unwind(AssertUnwindSafe(move || drop($rw)));
         } else {
